@@ -1,7 +1,9 @@
 package chainsim
 
 import (
+	"bytes"
 	"encoding/binary"
+	"errors"
 	"fmt"
 	"testing"
 	"testing/synctest"
@@ -150,6 +152,10 @@ func TestC15(t *testing.T) {
 					simkit.Global.Inc("fault.corrupt.tx-" + kind)
 				}
 			}
+			// AuxPoW donor data as a peer ships it inside a work object header
+			if err := feedDonorFrames(blk, seed, &counter, fail); err != nil {
+				return
+			}
 			// the node must still be on its honest head
 			if n.Zone().CurrentHeader().Hash() != bi.Hash {
 				if err := w.SetHead(n, bi.Hash); err != nil {
@@ -159,4 +165,93 @@ func TestC15(t *testing.T) {
 			w.outbox = nil
 		}}
 	})
+}
+
+// donorCoinbase serialises a one-input, zero-output donor-chain coinbase transaction around scriptSig.
+func donorCoinbase(scriptSig []byte) []byte {
+	var buf bytes.Buffer
+	binary.Write(&buf, binary.LittleEndian, uint32(1))
+	buf.WriteByte(1)
+	buf.Write(make([]byte, 32))
+	buf.Write([]byte{0xff, 0xff, 0xff, 0xff})
+	buf.WriteByte(byte(len(scriptSig)))
+	buf.Write(scriptSig)
+	buf.Write([]byte{0xff, 0xff, 0xff, 0xff})
+	buf.WriteByte(0)
+	buf.Write([]byte{0, 0, 0, 0})
+	return buf.Bytes()
+}
+
+// receiveDonor does what a receiving node does with the AuxPoW part of a work object header: decode the frame, then
+// the sequence of parsers the share validator and header verification run on the donor coinbase and header.
+func receiveDonor(frame []byte) {
+	pa := new(types.ProtoAuxPow)
+	if err := proto.Unmarshal(frame, pa); err != nil {
+		simkit.Global.Inc("frames_rejected_by_decoder")
+		return
+	}
+	aux := new(types.AuxPow)
+	if err := aux.ProtoDecode(pa); err != nil || aux.Header() == nil {
+		simkit.Global.Inc("frames_rejected_by_decoder")
+		return
+	}
+	simkit.Global.Inc("donor_frames_parsed")
+	scriptSig := types.ExtractScriptSigFromCoinbaseTx(aux.Transaction())
+	_, _ = types.ExtractSignatureTimeFromCoinbase(scriptSig)
+	_ = aux.Header().Timestamp()
+	_, _ = types.ExtractSealHashFromCoinbase(scriptSig)
+	_, _, _ = types.ExtractMerkleSizeAndNonceFromCoinbase(scriptSig)
+	_, _ = types.ExtractHeightFromCoinbase(scriptSig)
+	_ = types.ExtractCoinbaseOutFromCoinbaseTx(aux.Transaction())
+	_ = types.CalculateMerkleRoot(aux.PowID(), aux.Transaction(), aux.MerkleBranch())
+	_ = aux.Header().MerkleRoot()
+	_ = types.ValidatePrevOutPointIndexAndSequenceOfCoinbase(aux.Transaction())
+	_ = aux.ConvertToTemplate().VerifySignature()
+	_ = aux.Header().PowHash()
+}
+
+func feedDonorFrames(blk *types.WorkObject, seed uint64, counter *uint64, fail func(class, witness, detail string)) error {
+	script := types.BuildCoinbaseScriptSigWithNonce(uint32(840000+blk.NumberU64(common.ZONE_CTX)), 7, 9, blk.SealHash(), 1, uint32(blk.Time()))
+	for idx, powID := range []types.PowID{types.SHA_BTC, types.SHA_BCH, types.Scrypt} {
+		var hdr []byte
+		switch powID {
+		case types.SHA_BTC:
+			hdr = types.NewAuxPowHeader(types.NewBitcoinBlockHeader(0x20000000, [32]byte{1}, [32]byte{2}, uint32(blk.Time()), 0x1d00ffff, 42)).Bytes()
+		default:
+			hdr = types.NewBlockHeader(powID, 0x20000000, [32]byte{1}, [32]byte{2}, uint32(blk.Time()), 0x1d00ffff, 42, 0).Bytes()
+		}
+		id := uint32(powID)
+		mk := func(tx []byte) []byte {
+			raw, _ := proto.Marshal(&types.ProtoAuxPow{ChainId: &id, Header: hdr, Signature: []byte{0x01}, MerkleBranch: [][]byte{bytes.Repeat([]byte{3}, 32)}, Transaction: tx})
+			return raw
+		}
+		type frame struct {
+			kind string
+			raw  []byte
+		}
+		var frames []frame
+		frames = append(frames, frame{"well-formed", mk(donorCoinbase(script))})
+		if idx == int(seed%3) { // every truncation of the donor coinbase's scriptSig
+			for keep := len(script) - 1; keep >= 0; keep-- {
+				frames = append(frames, frame{"donor-script-truncated", mk(donorCoinbase(script[:keep]))})
+			}
+		}
+		for j := 0; j < 4; j++ {
+			*counter++
+			k := seed + *counter*0x9e3779b97f4a7c15
+			bad, kind := corrupt(donorCoinbase(script), k)
+			frames = append(frames, frame{"donor-tx-" + kind, mk(bad)})
+			bad, kind = corrupt(frames[0].raw, k)
+			frames = append(frames, frame{"donor-frame-" + kind, bad})
+		}
+		for _, f := range frames {
+			simkit.Global.Inc("fault.corrupt." + f.kind)
+			if perr := guarded(func() error { receiveDonor(f.raw); return nil }); perr != nil {
+				fail("no-panic", "entry=auxpow-donor mutation="+f.kind, fmt.Sprintf("an AuxPoW donor frame (%s, pow id %d, %d bytes) made the receive path panic: %v", f.kind, powID, len(f.raw), perr))
+				return errors.New("violation")
+			}
+			simkit.Global.Inc("corrupted_frames")
+		}
+	}
+	return nil
 }
